@@ -137,3 +137,28 @@ Definition CFConfigMoves_lending_move (self_divisor_graph_graph : dictD) (self_d
 Definition CFConfigMoves_borrowing_move (self_divisor_graph_graph : dictD) (self_divisor_degrees : dictZ) (vertex_name : nat) : pyres (dictZ) (dictZ) :=
   match CFDivisor_borrowing_move self_divisor_graph_graph self_divisor_degrees vertex_name with PyExn self_divisor_degrees => PyExn self_divisor_degrees | PyOk self_divisor_degrees =>
   PyOk self_divisor_degrees end.
+
+(* chipfiring/CFConfig.py :: CFConfigMoves.is_legal_set_firing   reads ['self_q_vertex', 'self_v_tilde_vertices', 'self_graph_vertices', 'self_divisor_degrees', 'self_divisor_graph_graph'], writes [], may raise *)
+Definition CFConfigMoves_is_legal_set_firing (self_q_vertex : nat) (self_v_tilde_vertices : list nat) (self_graph_vertices : list nat) (self_divisor_degrees : dictZ) (self_divisor_graph_graph : dictD) (set_order : list nat -> list nat) (S_names : list nat) : pyres (unit) bool :=
+  if (match S_names with [] => true | _ :: _ => false end) then
+  PyOk (false)
+  else
+  match fold_left (fun acc_ name => match acc_ with PyExn e_ => PyExn e_ | PyOk tt => 
+  let v := name in
+  if (Nat.eqb v self_q_vertex) then
+  PyExn tt
+  else
+  if (negb (s_mem v self_v_tilde_vertices)) then
+  PyExn tt
+  else
+  PyOk tt end) (set_order S_names) (PyOk tt) with PyExn e_ => PyExn e_ | PyOk tt =>
+  match CFConfigMoves___init__ self_graph_vertices self_divisor_degrees self_q_vertex with PyExn _ => PyExn tt | PyOk (temp_config_copy_q_vertex, temp_config_copy_v_tilde_vertices) =>
+  let temp_config_copy_divisor_degrees := self_divisor_degrees in
+  match CFConfigMoves_set_fire temp_config_copy_q_vertex temp_config_copy_v_tilde_vertices self_divisor_graph_graph temp_config_copy_divisor_degrees set_order S_names with PyExn _ => PyExn tt | PyOk temp_config_copy_divisor_degrees =>
+  match fold_left (fun acc_ v_name_in_S => match acc_ with PyExn e_ => PyExn e_ | PyOk (Some r_, tt) => PyOk (Some r_, tt) | PyOk (None, tt) => 
+  match CFConfigMoves_get_degree_at temp_config_copy_q_vertex temp_config_copy_v_tilde_vertices temp_config_copy_divisor_degrees v_name_in_S with PyExn _ => PyExn tt | PyOk t1_ =>
+  if (t1_ <? 0) then
+  PyOk (Some (false), tt)
+  else
+  PyOk (None, tt) end end) (set_order S_names) (PyOk (None, tt)) with PyExn e_ => PyExn e_ | PyOk (Some r_, tt) => PyOk (r_) | PyOk (None, tt) =>
+  PyOk (true) end end end end.
